@@ -275,6 +275,14 @@ class WaitConnAck(State):
             self.set_closed_state()
             return
 
+        if not self.association.is_starting and \
+                not self.association.is_connected():
+            #: start() is over and there is no connection: the attempt has
+            #: failed there and then (an SCTP client connects in blocking
+            #: mode and is told of a refusal at once).
+            self.event_initiator_rcv_conn_nack()
+            return
+
         if self.association.is_connected():
             is_up = self.association.transport.test_connection()
 
